@@ -259,12 +259,23 @@ Fixpoint exists_between (f : nat -> bool) (lo : nat) (n : nat) : bool :=
   | S n' => f lo || exists_between f (S lo) n'
   end.
 
+(* the key differs from the request's expectation; an unguarded delete (expected revision 0) expects the
+   key to stay as it was when the request came in: any change of the index record in flight justifies
+   its failure *)
+Definition differs_w (ks_inv ks : kstate) (q : req) : bool :=
+  differs ks q ||
+  match q with
+  | RqDelete _ 0 => negb (opt_eqb idx_eqb (k_idx ks) (k_idx ks_inv))
+  | _ => false
+  end.
+
 Definition justified (c : sched_case) (recs : list rrec) (r : rrec) : bool :=
   if resp_cond_failed (rr_resp r) && negb (rr_injected r) then
     let k := req_key (rr_q r) in
     let ks0 := lookup k_empty k (sc_init c) in
     let succ := successes k recs in
-    exists_between (fun j => differs (key_at ks0 succ j) (rr_q r)) (rr_inv r) (S (rr_ret r - rr_inv r))
+    exists_between (fun j => differs_w (key_at ks0 succ (rr_inv r)) (key_at ks0 succ j) (rr_q r))
+                   (rr_inv r) (S (rr_ret r - rr_inv r))
   else true.
 
 Definition case_keys (c : sched_case) : list key :=
